@@ -473,10 +473,13 @@ fn stream_inline(driver: &Driver, ctx: &Ctx, seed: u64, n: u64) -> Stream {
         for _ in 0..rng.usize(8) {
             rest.push(*rng.pick(b"Ax\n\nEEII \r0"));
         }
-        let term: &[u8] = match rng.below(8) {
+        let term: &[u8] = match rng.below(10) {
             0 => b" EI",
             1 => b"\rEI",
             2 => b"\r\nEI",
+            3 => b"\tEI",
+            4 => b" EIx",
+            5 => b"\nEI/",
             _ => b"\nEI",
         };
         st.count(&format!("terminator={:?}", String::from_utf8_lossy(term)));
